@@ -74,6 +74,11 @@ CHECKS = {
         note="Trusted: PySAT minisat22 for the per-assignment SAT calls of the recorder; atoms located in the id pool by name.",
         ref="6 C15", tech="TLC trace validation of recorded CNFs and MCS calls against TLA+ definitions (EvalTree, MinimalSets)",
     ),
+    "C13": dict(
+        text="Manager.tla models the call machine as the code structures it (CallStart, PrepSkip/Run/Refuse, Answer in submission order or Spawn + WorkerDone in any order, CallReturn/CallRaise); TLC checks all histories within small bounds and shows that the originally coded text-keyed plumbing variant violates RowsOwnKey. Histories (seeded, and TLC-simulated behaviours) are executed on real managers of every operator/back-end/mode under an external recorder and each recorded trace is validated by TLC against the machine: every event must be matched by the spec action with the logged fields bound, rows must equal the spec's table, no child process may be alive at return.",
+        note="Reference answer of a query = its answer alone on a fresh manager. Worker completion orders are varied by delays, not enumerated on the real code (they are enumerated in the model).",
+        ref="6 C13", tech="TLA+ state machine model-checked by TLC; TLC trace validation of recorded executions (IsEvent pattern); TLC-simulated behaviours replayed",
+    ),
 }
 
 NOT_YET = {
